@@ -46,23 +46,6 @@ fn rne_dec(abs: u8, f: u32, k: usize) -> u64 {
     let q = num / den; let rem = num % den;
     if 2 * rem > den || (2 * rem == den && q % 2 == 1) { q + 1 } else { q }
 }
-// region of the known finding F-C09-early-trim: with an explicit precision the "very close to a round decimal"
-// cut-off of write_frac_dec still fires: some scaled remainder after a digit is within 10 units of 0 or of 2^8
-fn early_trim_fires(abs: u8, f: u32, p: usize) -> bool {
-    if f == 0 { return false; }
-    let mut rem: u8 = if f == 8 { abs } else { abs << (8 - f) };
-    let mut fires = false;
-    let mut i = 0;
-    while i < P_MAX {
-        if i < p && i < f as usize {
-            rem = ((rem as u32 * 10) & 0xff) as u8;
-            if rem < 10 || rem.wrapping_neg() < 10 { fires = true; }
-        }
-        i += 1;
-    }
-    fires
-}
-
 // default `{}`: the printed decimal is the correct rounding of the value at the number of digits shown, and it
 // parses back to the same value (it lies within half an ulp; a tie resolves to an even bit pattern)
 #[cfg(kani)]
@@ -103,18 +86,9 @@ pub fn display_precision() {
     assert!(r.is_ok());
     let (_n, val, fd, ok) = read_dec(&s);
     assert!(ok);
-    if early_trim_fires(abs, f, p) { return; }     // known finding F-C09-early-trim (region carved out)
     assert!(fd == p);
     assert!(val == rne_dec(abs, f, p));
 }
-#[cfg(kani)]
-#[kani::proof]
-pub fn display_precision_region_reachable() {
-    // U1F7 38/128 = 0.296875 at precision 8: the region predicate holds (the witness of the finding)
-    assert!(early_trim_fires(38, 7, 8));
-    assert!(!early_trim_fires(64, 7, 8));
-}
-
 // sign, '+', zero padding and width only add prefix / padding around the same digits: each harness formats the
 // value once with the flag and once plain (one flag at a time keeps the SAT problem small)
 macro_rules! flag_harness {
